@@ -119,8 +119,13 @@ var checkC08 = def("C08/history", func(c histCase) error {
 			got := takeSnap(mb.b)
 			ignore := false
 			if mb == popped {
-				if !top.Drawn && got.Drawn {
-					return fmt.Errorf("step %d (%v): board %d reports a drawn result after take-back although it was not drawn before the move", step, op, i)
+				// a take-back leaves a not-drawn result, whatever the position returned to had been
+				// flagged with when it was first reached (a legal move was played from it)
+				if got.Drawn {
+					return fmt.Errorf("step %d (%v): board %d reports a drawn result (%v) right after a take-back (before the move: drawn=%v)", step, op, i, mb.b.Result(), top.Drawn)
+				}
+				if top.Drawn {
+					labels = append(labels, "take-back-onto-a-position-that-was-flagged-drawn")
 				}
 				ignore = true
 			}
